@@ -593,8 +593,63 @@ func hullCase(c *mon.Case) {
 	}
 }
 
+// bandSubregion: A is a band around the equator more than 180 degrees of longitude wide (so that its bound may
+// be an inverted longitude interval), B a thin triangle inside it with two nearly antipodal vertices on the
+// equator (the bound of such an edge spans all longitudes).
+func bandSubregion(c *mon.Case) {
+	r := c.R
+	lngC := r.Float64()*360 - 180
+	if r.Intn(2) == 0 {
+		lngC = 180 - r.Float64()*20 + 10 // around the antimeridian
+	}
+	W := 95 + 70*r.Float64()
+	h := 5 + 25*r.Float64()
+	var avs []s2.Point
+	steps := int(2*W/10) + 1
+	for i := 0; i <= steps; i++ {
+		avs = append(avs, s2.PointFromLatLng(s2.LatLngFromDegrees(-h, lngC-W+2*W*float64(i)/float64(steps)).Normalized()))
+	}
+	for i := steps; i >= 0; i-- {
+		avs = append(avs, s2.PointFromLatLng(s2.LatLngFromDegrees(h, lngC-W+2*W*float64(i)/float64(steps)).Normalized()))
+	}
+	delta := gen.LogUniform(r, 1e-15, 1e-6) * 180 / math.Pi
+	bvs := []s2.Point{
+		s2.PointFromLatLng(s2.LatLngFromDegrees(0, lngC-90+delta).Normalized()),
+		s2.PointFromLatLng(s2.LatLngFromDegrees(0, lngC+90-delta).Normalized()),
+		s2.PointFromLatLng(s2.LatLngFromDegrees(h*0.2, lngC).Normalized()),
+	}
+	if ref.Antipodal(gen.V(bvs[0]), gen.V(bvs[1])) {
+		return
+	}
+	// B inside A by the exact model (all of B's vertices and edge midpoints)
+	ma := ref.NewLoopModel(gen.Vs(avs), origin, gen.RefDir)
+	for i := range bvs {
+		if !ma.Contains(gen.V(bvs[i])) || !ma.Contains(gen.V(s2.Interpolate(0.5, bvs[i], bvs[(i+1)%3]))) {
+			return
+		}
+	}
+	la, lb := s2.LoopFromPoints(avs), s2.LoopFromPoints(bvs)
+	c.Count("subregion.pairs", 1)
+	c.Count("subregion.wide_bands", 1)
+	c.Distinct(gen.Bits(avs[0], bvs[0])...)
+	ea, bb := s2.ExpandForSubregions(la.RectBound()), lb.RectBound()
+	det := func() any {
+		return map[string]any{"band_centre_lng_deg": lngC, "band_half_width_deg": W, "band_half_height_deg": h, "B": gen.HexAll(bvs...), "boundA": fmt.Sprint(la.RectBound()), "expandedA": fmt.Sprint(ea), "boundB": fmt.Sprint(bb)}
+	}
+	if !ea.Contains(bb) {
+		c.Violation("ExpandForSubregions/does-not-contain-subloop-bound/wrong-answer", "B lies inside the band A, but ExpandForSubregions(A.RectBound()) does not contain B.RectBound()", det())
+	}
+	if !la.Contains(lb) {
+		c.Violation("ExpandForSubregions/Loop.Contains-false-for-subloop/wrong-answer", "B lies inside the band A, but A.Contains(B) is false (the bound pre-check uses ExpandForSubregions)", det())
+	}
+}
+
 func subregionCase(c *mon.Case) {
 	r := c.R
+	if r.Intn(4) == 0 {
+		bandSubregion(c)
+		return
+	}
 	ctr := gen.RandCenter(r)
 	// away from the poles: the documented guarantee excludes loops enclosing a pole
 	if math.Abs(ctr.Z) > 0.7 {
